@@ -356,10 +356,40 @@ def strip_comments(src):
     return "".join(out)
 
 
-def audit_sources():
-    """Forbidden constructs anywhere in the development; Variable/Hypothesis only in Sections."""
+def coq_closure(prop_id):
+    """The .v files Props/<ID>.v transitively depends on (MJ.* imports), plus everything in the
+    property's own directory and in Common/ and Lang/."""
+    root = os.path.join(COQ, "theories")
+    todo = ["Props/%s.v" % prop_id]
+    seen = set()
+    while todo:
+        f = todo.pop()
+        if f in seen or not os.path.exists(os.path.join(root, f)):
+            continue
+        seen.add(f)
+        src = strip_comments(open(os.path.join(root, f)).read())
+        for m in re.finditer(r"(?:From\s+MJ\s+)?Require\s+(?:Import\s+|Export\s+)?([^.]*(?:\.[A-Za-z0-9_]+)*[^.]*)\.(?:\s|$)", src):
+            for mod in m.group(1).split():
+                mod = mod.strip()
+                if mod.startswith("MJ."):
+                    mod = mod[3:]
+                cand = mod.replace(".", "/") + ".v"
+                if os.path.exists(os.path.join(root, cand)):
+                    todo.append(cand)
+    for d in (prop_id, "Common", "Lang"):
+        dd = os.path.join(root, d)
+        if os.path.isdir(dd):
+            for f in os.listdir(dd):
+                if f.endswith(".v"):
+                    seen.add(d + "/" + f)
+    return sorted("theories/" + f for f in seen)
+
+
+def audit_sources(prop_id=None):
+    """Forbidden constructs in the development the property depends on (all files when prop_id is None);
+    Variable/Hypothesis only in Sections."""
     problems = []
-    for f in coq_files():
+    for f in (coq_closure(prop_id) if prop_id else coq_files()):
         src = strip_comments(open(os.path.join(COQ, f)).read())
         # string literals could contain the words; drop them
         src_ns = re.sub(r'"[^"]*"', '""', src)
@@ -397,7 +427,7 @@ def prove(prop_id):
     """Forced recompilation of Props/<ID>.v (and whatever it depends on that is stale).
     Returns dict(ok, theorems=[{name, assumptions}], problems=[...], log)."""
     res = {"ok": True, "theorems": [], "problems": [], "log": ""}
-    res["problems"] += audit_sources()
+    res["problems"] += audit_sources(prop_id)
     rel = "theories/Props/%s.vo" % prop_id
     vfile = os.path.join(COQ, "theories", "Props", prop_id + ".v")
     if not os.path.exists(vfile):
